@@ -6,11 +6,11 @@ S=$(mktemp -d /tmp/ra_repo.XXXXXX)
 rsync -a --exclude _build --exclude .git /repo/ $S/
 ( cd $S && patch -p1 -s < "$P" ) || { echo "PATCH FAILED"; rm -rf $S; exit 3; }
 mkdir -p $S/.ev
-for C in ${CHECKS:-C01 C02 C03 C06 C07 C09 C10 C11 C12 C14 C15 C16 C17 C19 C20}; do
+for C in ${CHECKS:-C01 C02 C03 C05 C06 C07 C08 C09 C10 C11 C12 C13 C14 C15 C16 C17 C18 C19 C20}; do
   ( AMGCL_SA_REPO=$S AMGCL_SA_WORK=$S/.work AMGCL_SA_EVIDENCE=$S/.ev python3 /verif/check.py $C --tier $TIER > $S/.ev/$C.log 2>&1; echo $? > $S/.ev/$C.rc ) &
 done
 wait
-for C in ${CHECKS:-C01 C02 C03 C06 C07 C09 C10 C11 C12 C14 C15 C16 C17 C19 C20}; do
+for C in ${CHECKS:-C01 C02 C03 C05 C06 C07 C08 C09 C10 C11 C12 C13 C14 C15 C16 C17 C18 C19 C20}; do
   rc=$(cat $S/.ev/$C.rc)
   if [ "$rc" != 0 ]; then
     echo "$C exit=$rc"
